@@ -12,3 +12,5 @@ import P2P.Props.C03
 #print axioms P2P.Props.C03.hydrogens_complete
 #print axioms P2P.Props.C03.hydrogens_only_adds
 #print axioms P2P.Props.C03.hydrogens_nodup
+#print axioms P2P.Props.C03.ash_clean
+#print axioms P2P.Props.C03.glh_clean
